@@ -206,6 +206,12 @@ func (l *listener) Sync() error {
 		return err
 	}
 
+	// Close or Shutdown may have run before the acceptor existed and found nothing to close.
+	if cur, ok := l.bs.listeners.Load(l.url); !ok || cur != Listener(l) {
+		_ = l.acceptor.Close()
+		return ErrServerClosed
+	}
+
 	for {
 		// accept the transport
 		t, err := l.acceptor.Accept()
